@@ -88,7 +88,7 @@ class SProcess:
         return SPath(arr)
 
 
-def make(ctx, n, strikes, notional, df, cv=None, spot_stats=False, concrete=None):
+def make(ctx, n, strikes, notional, df, cv=None, spot_stats=False, concrete=None, underlying=None):
     proc = SProcess(ctx, df, concrete)
     cfg = CFG.ConfigurationStandard(mc_paths=n, seed=None, control_variates=cv, activate_spot_statistics=spot_stats, nb_of_processes=1)
     cfg.initialisation_seed = lambda multiprocessing=False: None
@@ -99,7 +99,7 @@ def make(ctx, n, strikes, notional, df, cv=None, spot_stats=False, concrete=None
         payoff = PAY.Vanilla(strike=strikes[0], payoff_type=PAY.PayoffType.CALL)
     else:
         payoff = PAY.Vanilla(strike=np.array(strikes, dtype=object if concrete is None else float), payoff_type=PAY.PayoffType.CALL)
-    prod = PROD.Product(payoff_underlying=UND.Spot(), payoff=payoff, maturity=1.0, notional=notional)
+    prod = PROD.Product(payoff_underlying=underlying if underlying is not None else UND.Spot(), payoff=payoff, maturity=1.0, notional=notional)
     return eng, prod, proc
 
 
@@ -212,7 +212,26 @@ def h_cv(ctx, n):
     ctx.prove("C07.cv.adjusted_variance_is_raw_minus_explained", EQ_RATIONAL((var_raw - var_adj) * sxx, sxy * sxy), info={"n": n}, replay=rp, timeout_ms=60000)
 
 
-def h_cv_comp(ctx, n):
+def replay_cv_reuse(sc):
+    """one ControlVariates object (a forward on the spot) used for two pricings: first a call on the spot, then a call on the log-spot; the
+    second price is mean(Y - b*(X - p)) with X the control's own payoff on the second pricing's paths"""
+    ss1, ss2 = [0.8, 1.3, 1.1, 1.9], [1.2, 2.5, 0.7, 1.6, 3.1]
+    cvprod = PROD.Product(payoff_underlying=UND.Spot(), payoff=PAY.Forward(strike=0.2), maturity=1.0, notional=2.5)
+    cv = PROD.ControlVariates(products=[cvprod], prices=[0.7])
+    eng, prod, proc = make(None, len(ss1), [1.0], 2.0, 0.9, cv=cv, concrete=ss1)
+    eng.price(prod)
+    eng, prod, proc = make(None, len(ss2), [0.3], 2.0, 0.9, cv=cv, concrete=ss2, underlying=UND.LogSpot())
+    stats = eng.price(prod)
+    Y = np.array([0.9 * 2.0 * max(np.log(x) - 0.3, 0.0) for x in ss2])
+    X = np.array([0.9 * 2.5 * (x - 0.2) for x in ss2])
+    c = np.cov(X, Y, bias=True)
+    want = float(np.mean(Y - c[0, 1] / c[0, 0] * (X - 0.7)))
+    got = float(np.ravel(stats.price())[0])
+    return abs(got - want) > 1e-9, (f"controls object first used for a call on the spot, then for a call on the log-spot (spots {ss2}): reported price {got!r}, "
+                                    f"mean(Y - b*(X - price_X)) with X the forward on the spot = {want!r}")
+
+
+def h_cv_comp(ctx, n, reuse=False):
     """one control, compositional (fast in both directions): (a) the covariance entries the library computes are the biased sample
     covariances; (b) over an arbitrary covariance matrix sigma (fresh symbols) the adjusted samples are Y_j - (sigma_xy/sigma_xx)(X_j - p):
     adjusted mean and adjusted variance follow as polynomial identities of low degree."""
@@ -224,10 +243,22 @@ def h_cv_comp(ctx, n):
     spots = [ctx.real(f"s{j}") for j in range(n)]
     k0 = ctx.real("k0")
     ctx.fork_max = True
-    eng, prod, proc = make(ctx, n, [k0], notional, df, cv=cv, concrete=spots)
-    rp = (replay_cv, lambda m: {"n": max(n, 4), "nx": 2.5})
-    info = {"n": n, "controls": 1}
-    Y = [df * notional * shims._smax_fork(s - k0, 0.0) for s in spots]
+    if reuse:
+        # history: the same controls object has served an earlier pricing of a product on another payoff underlying (the spot); the product
+        # priced now is written on the log-spot, the control still is a forward on the spot
+        eng0, prod0, proc0 = make(ctx, 2, [1.0], 1.0, df, cv=cv, concrete=[1.0, 2.0])
+        eng0.price(prod0)
+        for sp in spots:
+            ctx.assume(sp > 0)
+        eng, prod, proc = make(ctx, n, [k0], notional, df, cv=cv, concrete=spots, underlying=UND.LogSpot())
+        rp = (replay_cv_reuse, lambda m: {})
+        info = {"n": n, "controls": 1, "reuse": True}
+        Y = [df * notional * shims._smax_fork(shims.sym_log(sp) - k0, 0.0) for sp in spots]
+    else:
+        eng, prod, proc = make(ctx, n, [k0], notional, df, cv=cv, concrete=spots)
+        rp = (replay_cv, lambda m: {"n": max(n, 4), "nx": 2.5})
+        info = {"n": n, "controls": 1}
+        Y = [df * notional * shims._smax_fork(s - k0, 0.0) for s in spots]
     X = [df * nx * (s - kx) for s in spots]
     mean = lambda v: sum(v) / n
     cov = lambda u, v: sum((a - mean(u)) * (b - mean(v)) for a, b in zip(u, v)) / n
@@ -238,6 +269,8 @@ def h_cv_comp(ctx, n):
 
     def cov_hook(m, y=None, rowvar=True, bias=False, ddof=None, **kw):
         C = orig_cov(m, y=y, rowvar=rowvar, bias=bias, ddof=ddof, **kw)
+        if V.get_context() is None:
+            return C  # a replay is running inside an obligation of this harness: plain numpy
         ok = np.shape(C) == (2, 2)
         ctx.prove("C07.cv.covariances_are_biased_sample_covariances", ok and AND(*[EQ(C[i][j], cov(rows[i], rows[j])) for i in range(2) for j in range(2)]), info=info, replay=rp)
         S = np.empty((2, 2), dtype=object)
@@ -344,6 +377,8 @@ def h_cv2(ctx, n, uncorrelated=False):
 
     def cov_hook(m, y=None, rowvar=True, bias=False, ddof=None, **kw):
         C = orig_cov(m, y=y, rowvar=rowvar, bias=bias, ddof=ddof, **kw)
+        if V.get_context() is None:
+            return C  # a replay is running inside an obligation of this harness: plain numpy
         ok = np.shape(C) == (3, 3)
         ctx.prove("C07.cv.covariances_are_biased_sample_covariances",
                   ok and AND(*[EQ(C[i][j], cov(rows[i], rows[j])) for i in range(3) for j in range(3)]), info=info, replay=rp)
@@ -437,6 +472,7 @@ def harnesses(tier):
         hs.append(Harness(f"cv1.N{n}", h_cv_comp, {"n": n}, max_paths=4000, timeout_ms=60000))
     for n in ((3,) if q else (3, 4)):
         hs.append(Harness(f"cv2.N{n}", h_cv2, {"n": n}, max_paths=2000, timeout_ms=120000))
+    hs.append(Harness("cv1.N2.controls_object_reused", h_cv_comp, {"n": 2, "reuse": True}, max_paths=4000, timeout_ms=60000))
     hs.append(Harness("cv2.uncorrelated.N3", h_cv2, {"n": 3, "uncorrelated": True}, max_paths=2000, timeout_ms=120000))
     for n in ((1, 2) if q else (1, 2, 3)):
         hs.append(Harness(f"twice.N{n}", h_twice, {"n": n}, max_paths=2000))
@@ -450,7 +486,7 @@ EXPECT = ["C07.price_is_discounted_mean_of_notional_scaled_payoff", "C07.mc_erro
 
 
 # reference replays run when the symbolic run of a harness ends in an exception of the code under analysis (see runner.run_check)
-ERROR_REPLAYS = {"cv2.uncorrelated": (replay_cv2_uncorrelated, {}), "cv2.": (replay_cv2, {"n": 4}), "cv": (replay_cv, {"n": 4, "nx": 2.5}),
+ERROR_REPLAYS = {"cv2.uncorrelated": (replay_cv2_uncorrelated, {}), "cv2.": (replay_cv2, {"n": 4}), "cv1.N2.controls_object_reused": (replay_cv_reuse, {}), "cv": (replay_cv, {"n": 4, "nx": 2.5}),
                  "price.": (replay_price, {"n": 3, "strikes": [0.9, 1.3]}), "twice.": (replay_twice, {"n": 2})}
 
 
